@@ -286,6 +286,8 @@ func (e *explorer) explore(sc *Scenario, policy int) {
 	}
 }
 
+func tierQuick(t string) bool { return t != "thorough" }
+
 func traceString(o *mc.Outcome) string {
 	var sb strings.Builder
 	last := -1
@@ -347,25 +349,63 @@ func main() {
 	e := &explorer{c: c, states: map[uint64]struct{}{}, outcomes: map[string]int64{}}
 	scs := gen(*tier)
 	start := time.Now()
+	// iterate the bound: everything with <= 1 deviation first, then <= 2, ... so that an internal deadline only ever
+	// cuts the deepest level, and the bound completed for ALL scenarios is reported
+	maxB := 0
 	for _, sc := range scs {
-		if *only != "" && !strings.Contains(sc.Name, *only) {
-			continue
+		if sc.Bound > maxB {
+			maxB = sc.Bound
 		}
-		if *list {
-			fmt.Println(sc.Name, "bound", sc.Bound, "policies", sc.Policies)
-			continue
+	}
+	completed := -1
+	for b := 1; b <= maxB || b == 1; b++ {
+		for _, sc := range scs {
+			if *only != "" && !strings.Contains(sc.Name, *only) {
+				continue
+			}
+			if *list {
+				if b == 1 {
+					fmt.Println(sc.Name, "bound", sc.Bound, "policies", sc.Policies)
+				}
+				continue
+			}
+			full := sc.Bound
+			run := *sc
+			if tierQuick(*tier) {
+				if b > 1 {
+					continue // quick: one round, straight to the scenario's own bound
+				}
+			} else {
+				// thorough: level by level; a scenario takes part in round b while b <= its own bound (bound 0 runs once)
+				if full < b && !(b == 1 && full == 0) {
+					continue
+				}
+				if full > b {
+					run.Bound = b
+				}
+			}
+			pols := run.Policies
+			if len(pols) == 0 {
+				pols = []int{0}
+			}
+			for _, pol := range pols {
+				e.explore(&run, pol)
+			}
+			if c.Shard == 0 && (run.Bound == full) {
+				c.Sample(map[string]any{"scenario": sc.Name, "bound": full, "policies": pols})
+				c.Inc("scenarios")
+			}
 		}
-		pols := sc.Policies
-		if len(pols) == 0 {
-			pols = []int{0}
+		if c.Expired() {
+			break
 		}
-		for _, pol := range pols {
-			e.explore(sc, pol)
+		completed = b
+		if tierQuick(*tier) {
+			break
 		}
-		if c.Shard == 0 {
-			c.Sample(map[string]any{"scenario": sc.Name, "bound": sc.Bound, "policies": pols})
-			c.Inc("scenarios")
-		}
+	}
+	if !tierQuick(*tier) {
+		c.Bound("deviation_bound_completed_for_all_scenarios", fmt.Sprint(completed))
 	}
 	_ = start
 	c.R.States = int64(len(e.states))
